@@ -233,11 +233,44 @@ structure Core (addrs : List Addr) (st : St) : Prop where
   fams : ∀ a ∈ st.sec, a.fam ≠ fam0 addrs
   famx : ∀ x ∈ st.streams, (x.addr.fam = fam0 addrs ↔ x.it = 0)
 
+/-- `self.streams` (`inSet`) while the future is pending: every `connect` call record is in it or already closed
+(the records of calls that raised are never in it: they are closed from the start), without repetitions, and only
+holds streams that exist -/
+def Cover (st : St) : Prop :=
+  (∀ i x, st.streams[i]? = some x → i ∈ st.inSet ∨ x.closed = true) ∧ st.inSet.Nodup
+    ∧ ∀ i ∈ st.inSet, i < st.streams.length
+
+theorem Cover.upd {st st' : St} (h : Cover st) (f : Stream → Stream) (s : Nat)
+    (hf : ∀ y, y.closed = true → (f y).closed = true)
+    (hs : st'.streams = modifyNth f st.streams s) (hi : st'.inSet = st.inSet) : Cover st' := by
+  obtain ⟨h1, h2, h3⟩ := h
+  refine ⟨?_, hi ▸ h2, ?_⟩
+  · intro i x hx
+    rw [hs] at hx
+    rw [hi]
+    by_cases e : i = s
+    · subst e
+      rw [getElem?_modifyNth] at hx
+      cases hl : st.streams[i]? with
+      | none => rw [hl] at hx; cases hx
+      | some y =>
+        rw [hl] at hx
+        simp only [Option.map_some, Option.some.injEq] at hx
+        subst hx
+        rcases h1 i y hl with hm | hc
+        · exact Or.inl hm
+        · exact Or.inr (hf y hc)
+    · rw [getElem?_modifyNth_ne _ _ _ _ e] at hx
+      exact h1 i x hx
+  · intro i hm
+    rw [hs, length_modifyNth]
+    exact h3 i (hi ▸ hm)
+
 structure Sett (addrs : List Addr) (st : St) : Prop where
-  s0 : st.settles = [] → st.inSet = List.range st.streams.length
+  s0 : st.settles = [] → Cover st
         ∧ ∀ x ∈ st.streams, (x.delivered = true → x.fut = .err) ∧ (x.closed = true → x.fut = .err)
   sok : ∀ a w, st.settles = [.ok a w] → ∃ x, st.streams[w]? = some x ∧ a = x.addr.idx ∧ x.closed = false
-        ∧ x.delivered = true ∧ st.inSet = (List.range st.streams.length).erase w
+        ∧ x.delivered = true ∧ w ∉ st.inSet
         ∧ ∀ s y, s ≠ w → st.streams[s]? = some y → y.closed = true
   sto : st.settles = [.timeout] → ∀ x ∈ st.streams, x.closed = true
   sfl : ∀ o, st.settles = [o] → kindOf o = .fail →
@@ -267,7 +300,12 @@ theorem Sett.of_eq {addrs} {st st' : St} (h : Sett addrs st) (h1 : st'.settles =
     (h2 : st'.streams = st.streams) (h3 : st'.inSet = st.inSet) : Sett addrs st' := by
   obtain ⟨a, b, c, d⟩ := h
   constructor
-  · rw [h1, h2, h3]; exact a
+  · rw [h1, h2]
+    intro h0
+    refine ⟨?_, (a h0).2⟩
+    unfold Cover
+    rw [h2, h3]
+    exact (a h0).1
   · rw [h1, h2, h3]; exact b
   · rw [h1, h2]; exact c
   · rw [h1, h2]; exact d
@@ -291,7 +329,7 @@ theorem Sett.evolve {addrs} {st st' : St} (h : Sett addrs st) (hne : st.settles 
   · intro a w h0
     rw [hs] at h0
     obtain ⟨x, hx, ha, hc, hd, hin, hoth⟩ := h.sok a w h0
-    refine ⟨x, by rw [hw a w h0]; exact hx, ha, hc, hd, by rw [hi, hl]; exact hin, ?_⟩
+    refine ⟨x, by rw [hw a w h0]; exact hx, ha, hc, hd, by rw [hi]; exact hin, ?_⟩
     intro s y' hsw hy'
     have hlt : s < st.streams.length := hl ▸ lt_length_of_getElem? hy'
     obtain ⟨y'', h1, h2⟩ := he s _ (List.getElem?_eq_getElem hlt)
